@@ -24,8 +24,17 @@ def main():
     if not a.prop:
         ap.error("property id required")
     tier = a.tier if a.tier in ("quick", "thorough") else "quick"
-    mod = importlib.import_module("props." + a.prop.lower())
-    sys.exit(mod.main(seed, tier))
+    try:
+        mod = importlib.import_module("props." + a.prop.lower())
+        rc = mod.main(seed, tier)
+    except SystemExit:
+        raise
+    except BaseException as ex:  # noqa: BLE001 - a crash of the checker is a checker fault (exit 3), never exit 1
+        import traceback
+        traceback.print_exc()
+        print(f"CHECKER-ERROR property={a.prop}: the check crashed: {type(ex).__name__}: {ex}")
+        rc = 3
+    sys.exit(rc)
 
 
 if __name__ == "__main__":
